@@ -172,6 +172,9 @@ func (w *world) token(prefix string) string {
 func (w *world) genAttr(depth int) slog.Attr {
 	ch := simrt.Choose
 	key := w.token("k")
+	if ch("attr.reusekey", 4) == 0 {
+		key = []string{"ka", "kb", "id"}[ch("attr.keyname", 3)]
+	}
 	if ch("attr.longkey", 8) == 0 {
 		// key paths longer than the handlers' scratch buffers (32 bytes)
 		simrt.Probe("long_key_path")
@@ -552,6 +555,12 @@ func (w *world) derive(by string) {
 		return
 	} else if k%3 == 0 {
 		s.group = w.token("g")
+		if ch("derive.reusegroup", 2) == 1 {
+			// the same few group names turn up again and again, at the top level,
+			// after attributes and directly inside other groups
+			simrt.Probe("group_name_reused")
+			s.group = []string{"ga", "gb", "req"}[ch("derive.groupname", 3)]
+		}
 		if ch("derive.longgroup", 6) == 0 {
 			simrt.Probe("long_key_path")
 			s.group += "_" + strings.Repeat("z", 15+ch("derive.longgroup.n", 30))
@@ -620,6 +629,7 @@ func (w *world) log(by string, n *node) {
 
 // reference: the line this record gives when logged alone.
 func (w *world) reference(r *record) string {
+	simrt.ResetPackages() // "built alone": no cache or pool of the run survives into the reference
 	var buf bytes.Buffer
 	l := w.newRoot(&buf)
 	for _, s := range r.node.chain {
@@ -650,6 +660,7 @@ func (w *world) folded(r *record) (string, bool) {
 	if r.method == 3 {
 		return "", false // Logf carries no attributes of its own; covered by the other methods
 	}
+	simrt.ResetPackages()
 	var buf bytes.Buffer
 	l := w.newRoot(&buf)
 	rr := *r
